@@ -54,21 +54,26 @@ impl CopySource {
     /// # Errors
     /// Returns an error if the header is invalid
     pub fn parse(header: &str) -> Result<Self, ParseCopySourceError> {
-        let header = urlencoding::decode(header).map_err(|_| ParseCopySourceError::InvalidEncoding)?;
-        let header = header.strip_prefix('/').unwrap_or(&header);
+        // The query (`?versionId=<id>`) is cut off before the URL-encoded `bucket/key` is decoded:
+        // an encoded `?` (`%3F`) belongs to the key.
+        let (path, query) = match header.split_once('?') {
+            Some((path, query)) => (path, Some(query)),
+            None => (header, None),
+        };
+
+        let path = urlencoding::decode(path).map_err(|_| ParseCopySourceError::InvalidEncoding)?;
+        let path = path.strip_prefix('/').unwrap_or(&path);
 
         // FIXME: support access point
-        match header.split_once('/') {
+        match path.split_once('/') {
             None => Err(ParseCopySourceError::PatternMismatch),
-            Some((bucket, remaining)) => {
-                let (key, version_id) = match remaining.split_once('?') {
-                    Some((key, remaining)) => {
-                        let version_id = remaining
-                            .split_once('=')
-                            .and_then(|(name, val)| (name == "versionId").then_some(val));
-                        (key, version_id)
-                    }
-                    None => (remaining, None),
+            Some((bucket, key)) => {
+                let version_id = query
+                    .and_then(|query| query.split_once('='))
+                    .and_then(|(name, val)| (name == "versionId").then_some(val));
+                let version_id = match version_id {
+                    Some(val) => Some(urlencoding::decode(val).map_err(|_| ParseCopySourceError::InvalidEncoding)?),
+                    None => None,
                 };
 
                 if !path::check_bucket_name(bucket) {
@@ -82,7 +87,7 @@ impl CopySource {
                 Ok(Self::Bucket {
                     bucket: bucket.into(),
                     key: key.into(),
-                    version_id: version_id.map(Into::into),
+                    version_id: version_id.map(|val| val.as_ref().into()),
                 })
             }
         }
